@@ -43,7 +43,7 @@ func (f *CallNextMethod) Call(s *slip.Scope, args slip.List, depth int) slip.Obj
 		loc, _ = s.Get("~whopper-location~").(*slip.WhopLoc)
 	}
 	if loc == nil {
-		slip.ErrorPanic(s, depth, "%s called outside an around method qualifier.", f.Name)
+		slip.ErrorPanic(s, depth, "%s called outside a primary or around method.", f.Name)
 	}
 	if !loc.HasNext() {
 		nnm := slip.MustFindFunc("no-next-method")
